@@ -152,7 +152,14 @@ impl Prop for C11 {
                 }
                 // (c)
                 if max1 <= w1 && max2 > w2 {
-                    out.violate("C11", cls("fits-narrow-not-wide"), format!("{} [{}] every line fits at wrap_column {w1} (widest {max1}) but not at {w2} (widest {max2})", w.name, base.short()), &w.text, Some(&c1));
+                    let class = if fallback {
+                        "wrap-fallback"
+                    } else if super::wf::colon_comment_paren(&w.text) {
+                        "variant-arm-comment-after-colon"
+                    } else {
+                        "fits-narrow-not-wide"
+                    };
+                    out.violate("C11", class, format!("{} [{}] every line fits at wrap_column {w1} (widest {max1}) but not at {w2} (widest {max2})", w.name, base.short()), &w.text, Some(&c1));
                 }
                 if f1 != f2 || (max2 as i64 - w1 as i64).abs() <= 2 {
                     out.nontrivial.push(rng::hash_combine(rng::hash_combine(rng::hash_str(&w.text), ((w1 as u64) << 32) | w2 as u64), rng::hash_str(&base.short())));
